@@ -191,3 +191,41 @@ impl McSystem {
         hasher.finish()
     }
 }
+
+#[cfg(anysystem_verif)]
+impl McSystem {
+    /// Verification hook: ids of the events currently offered for execution.
+    pub fn verif_available_events(&self) -> BTreeSet<McEventId> {
+        self.available_events()
+    }
+
+    /// Verification hook: snapshot of the current state.
+    pub fn verif_get_state(&self) -> McState {
+        self.get_state()
+    }
+
+    /// Verification hook: restore a state.
+    pub fn verif_set_state(&mut self, state: McState) {
+        self.set_state(state)
+    }
+
+    /// Verification hook: current depth.
+    pub fn verif_depth(&self) -> u64 {
+        self.depth()
+    }
+
+    /// Verification hook: the pending-event store.
+    pub fn verif_events(&self) -> &PendingEvents {
+        &self.events
+    }
+
+    /// Verification hook: the pending-event store (mutable).
+    pub fn verif_events_mut(&mut self) -> &mut PendingEvents {
+        &mut self.events
+    }
+
+    /// Verification hook: apply an event taken from the store.
+    pub fn verif_apply_event(&mut self, event: McEvent) {
+        self.apply_event(event)
+    }
+}
